@@ -769,9 +769,11 @@ def check_tags(repo: Repo, res: Result, parser: ClassInfo, error_cls: ClassInfo,
 
     # accepted content: exactly the text between the tags is scanned
     interp, _v, completed = interpret(repo, parser, A.const(TAGGED))
-    hard = [r for r in interp.raised if r.how in ("stmt", "op")]
     construct = f"{parse_key}::content between the tags"
     subjects = [s for s in interp.sites.values() if s.pattern.text in line_patterns]
+    # raises after the first scan for declarations / arrows belong to the extraction (its matches are abstract), not to the tag slicing
+    scan_start = min((s.when for s in subjects if getattr(s, "round", None) == interp.round), default=None)
+    hard = [r for r in interp.raised if r.how in ("stmt", "op") and (scan_start is None or r.when < scan_start or not completed)]
     if not completed:
         names = sorted({r.name.rsplit('.', 1)[-1] for r in hard})
         res.add("C06.R4", construct, False, f"a file with @startuml ... @enduml and text around the tags is rejected ({', '.join(names) or 'no path returns'})", raise_site(interp)[1], kind="regex-language")
@@ -793,7 +795,8 @@ def check_tags(repo: Repo, res: Result, parser: ClassInfo, error_cls: ClassInfo,
     # rejected contents
     for what, content in REJECTED:
         interp, _v, completed = interpret(repo, parser, A.const(content))
-        hard = [r for r in interp.raised if r.how in ("stmt", "op")]
+        scans = [s.when for s in interp.sites.values() if s.pattern.text in line_patterns and getattr(s, "round", None) == interp.round]
+        hard = [r for r in interp.raised if r.how in ("stmt", "op") and (not scans or not completed or r.when < min(scans))]
         key, where_ = raise_site(interp)
         construct = f"{parse_key}::{what} is rejected"
         soft = [r for r in interp.raised if r.name not in ("builtins.KeyError", "builtins.AttributeError", "builtins.StopIteration")]
